@@ -36,7 +36,7 @@ type axiomText struct {
 var symRe = regexp.MustCompile(`[A-Za-z_][A-Za-z0-9_!.$]*`)
 
 // buildQuery assembles the SMT-LIB text of one obligation.
-func (v *Verifier) buildQuery(o *Obligation, withModel bool) string {
+func (v *Verifier) buildQuery(o *Obligation, withModel bool, refute bool) string {
 	var sb strings.Builder
 	sb.WriteString("(set-option :produce-models true)\n(set-logic ALL)\n")
 	body := strings.Join(o.Consts, "\n") + "\n" + strings.Join(o.Asserts, "\n") + "\n" + o.Goal
@@ -59,12 +59,21 @@ func (v *Verifier) buildQuery(o *Obligation, withModel bool) string {
 			}
 		}
 	}
-	for _, d := range v.decls.order {
+	for i, d := range v.decls.order {
+		if refute {
+			if alt, ok := v.decls.interp[v.decls.keys[i]]; ok {
+				d = alt
+			}
+		}
 		sb.WriteString(d)
 		sb.WriteByte('\n')
 	}
 	for i, ax := range v.axioms {
 		if used[i] {
+			if refute && v.axiomInterpreted(ax) {
+				sb.WriteString("; axiom " + ax.Name + " omitted: implied by the interpretation\n")
+				continue
+			}
 			sb.WriteString("; axiom " + ax.Name + "\n(assert " + ax.SMT + ")\n")
 		}
 	}
@@ -81,6 +90,20 @@ func (v *Verifier) buildQuery(o *Obligation, withModel bool) string {
 		sb.WriteString("(get-model)\n")
 	}
 	return sb.String()
+}
+
+// axiomInterpreted: every ghost function the axiom mentions has an SMT interpretation
+func (v *Verifier) axiomInterpreted(ax axiomText) bool {
+	if len(ax.Syms) == 0 {
+		return false
+	}
+	for _, s := range ax.Syms {
+		gf := v.cs.GhostFuncs[s]
+		if gf == nil || gf.Interp == "" {
+			return false
+		}
+	}
+	return true
 }
 
 func containsSym(text, sym string) bool {
@@ -169,6 +192,46 @@ func runSolver(ctx context.Context, sp solverSpec, file string, timeoutS int) so
 	return solveResult{Result: res, Solver: sp.Name, Time: el, Output: s}
 }
 
+// portfolio runs the solvers on one file (staggered start) and returns the first definitive answer.
+func portfolio(file string, timeoutS int, sem chan struct{}, which []solverSpec) (best *solveResult, all []solveResult, disagreement string) {
+	ctx, cancel := context.WithCancel(context.Background())
+	defer cancel()
+	resCh := make(chan solveResult, len(which))
+	for k, sp := range which {
+		sp := sp
+		delay := time.Duration(k) * 250 * time.Millisecond
+		go func() {
+			select {
+			case <-time.After(delay):
+			case <-ctx.Done():
+				resCh <- solveResult{Result: "cancelled", Solver: sp.Name}
+				return
+			}
+			sem <- struct{}{}
+			defer func() { <-sem }()
+			if ctx.Err() != nil {
+				resCh <- solveResult{Result: "cancelled", Solver: sp.Name}
+				return
+			}
+			resCh <- runSolver(ctx, sp, file, timeoutS)
+		}()
+	}
+	for range which {
+		r := <-resCh
+		all = append(all, r)
+		if r.Result == "unsat" || r.Result == "sat" {
+			if best == nil {
+				rr := r
+				best = &rr
+				cancel()
+			} else if best.Result != r.Result {
+				disagreement = fmt.Sprintf("SOLVER-DISAGREEMENT: %s says %s, %s says %s", best.Solver, best.Result, r.Solver, r.Result)
+			}
+		}
+	}
+	return
+}
+
 // solveAll discharges all obligations in parallel with a solver portfolio.
 func (v *Verifier) solveAll(obls []*Obligation, workDir string, timeoutS int, jobs int) {
 	os.MkdirAll(workDir, 0o755)
@@ -178,8 +241,7 @@ func (v *Verifier) solveAll(obls []*Obligation, workDir string, timeoutS int, jo
 		if o.Result == "error" { // out-of-subset marker
 			continue
 		}
-		if o.Consts == nil && o.Asserts == nil && o.Goal == "false" && o.Kind == "detached" {
-			o.Result = "detached"
+		if o.Result == "detached" {
 			continue
 		}
 		wg.Add(1)
@@ -187,71 +249,78 @@ func (v *Verifier) solveAll(obls []*Obligation, workDir string, timeoutS int, jo
 			defer wg.Done()
 			file := filepath.Join(workDir, fmt.Sprintf("%04d_%s.smt2", idx, sanitizeFile(o.Name)))
 			o.File = file
-			q := v.buildQuery(o, true)
-			if err := os.WriteFile(file, []byte(q), 0o644); err != nil {
-				o.Result = "error"
-				o.Output = err.Error()
-				return
-			}
 			to := timeoutS
 			if o.Canary {
 				to = 2
 			}
-			ctx, cancel := context.WithCancel(context.Background())
-			defer cancel()
-			resCh := make(chan solveResult, len(solvers))
-			for _, sp := range solvers {
-				sp := sp
-				go func() {
-					sem <- struct{}{}
-					defer func() { <-sem }()
-					if ctx.Err() != nil {
-						resCh <- solveResult{Result: "cancelled", Solver: sp.Name}
-						return
-					}
-					resCh <- runSolver(ctx, sp, file, to)
-				}()
+			if o.Known {
+				to = 3
 			}
-			var all []solveResult
-			var best *solveResult
-			for range solvers {
-				r := <-resCh
-				all = append(all, r)
-				if r.Result == "unsat" || r.Result == "sat" {
-					if best == nil {
-						rr := r
-						best = &rr
-						cancel()
-					} else if best.Result != r.Result && (r.Result == "unsat" || r.Result == "sat") {
-						o.Output += fmt.Sprintf("\nSOLVER-DISAGREEMENT: %s says %s, %s says %s", best.Solver, best.Result, r.Solver, r.Result)
+			if !o.Known {
+				if err := os.WriteFile(file, []byte(v.buildQuery(o, true, false)), 0o644); err != nil {
+					o.Result, o.Output = "error", err.Error()
+					return
+				}
+				best, all, dis := portfolio(file, to, sem, solvers)
+				if dis != "" {
+					o.Output += "\n" + dis
+					o.Disagree = true
+				}
+				if best != nil {
+					o.Result, o.Solver, o.Time = best.Result, best.Solver, best.Time
+					if best.Result == "sat" {
+						o.Model = best.Output
 					}
+				} else {
+					o.Result = "unknown"
+					var parts []string
+					for _, r := range all {
+						parts = append(parts, fmt.Sprintf("%s:%s", r.Solver, r.Result))
+						if r.Time > o.Time {
+							o.Time = r.Time
+						}
+						if r.Result == "error" {
+							o.Output += "\n" + r.Solver + ": " + firstLines(r.Output, 3)
+						}
+						if r.Result == "timeout" {
+							o.Result = "timeout"
+						}
+					}
+					o.Solver = strings.Join(parts, ",")
+				}
+				if o.Result == "unsat" || o.Canary {
+					return
 				}
 			}
-			if best != nil {
-				o.Result, o.Solver, o.Time = best.Result, best.Solver, best.Time
-				if best.Result == "sat" {
-					o.Model = best.Output
-				}
+			// refutation mode: interpreted library functions, to obtain a concrete model
+			rfile := strings.TrimSuffix(file, ".smt2") + ".refute.smt2"
+			if err := os.WriteFile(rfile, []byte(v.buildQuery(o, true, true)), 0o644); err != nil {
 				return
 			}
-			// no definitive answer
-			o.Result = "unknown"
-			var parts []string
-			maxT := 0.0
-			for _, r := range all {
-				parts = append(parts, fmt.Sprintf("%s:%s", r.Solver, r.Result))
-				if r.Time > maxT {
-					maxT = r.Time
-				}
-				if r.Result == "error" {
-					o.Output += "\n" + r.Solver + ": " + firstLines(r.Output, 3)
-				}
-				if r.Result == "timeout" {
-					o.Result = "timeout"
+			rto := 5
+			best, _, _ := portfolio(rfile, rto, sem, []solverSpec{solvers[2], solvers[0]})
+			if best == nil {
+				// cvc5 answers "unknown" but still prints a candidate model when quantified assumptions remain
+				r := runSolver(context.Background(), solvers[2], rfile, rto)
+				if r.Result == "unknown" && strings.Contains(r.Output, "define-fun") {
+					o.RefuteModel = r.Output
+					o.RefuteSolver = "cvc5(candidate model, quantifiers unchecked)"
 				}
 			}
-			o.Solver = strings.Join(parts, ",")
-			o.Time = maxT
+			if best != nil && best.Result == "sat" {
+				o.RefuteModel = best.Output
+				o.RefuteSolver = best.Solver
+				if o.Known || o.Result != "sat" {
+					o.Result, o.Solver, o.Time = "sat", best.Solver+"(refutation mode)", o.Time+best.Time
+				}
+				o.File = rfile
+			} else if o.Known {
+				o.Result = "unknown"
+				if best != nil {
+					// unsat in refutation mode: the interpreted functions prove the goal although the assumed axioms do not
+					o.Result = "unknown(refute:" + best.Result + ")"
+				}
+			}
 		}(idx, o)
 	}
 	wg.Wait()
